@@ -54,6 +54,27 @@ class CacheModel:
             if len(lst) != 1:
                 raise AnalysisError("MemoryCache.__init__: cannot identify the %s slot uniquely (%s)" % (what, lst))
             return lst[0]
+        if len(maps) > 1:
+            # the resident map is the dict that receives _CacheEntry values; further dicts (indexes a later
+            # change added) are auxiliary slots
+            def holds_entries(f):
+                for m_ in self.cls.methods.values():
+                    for st_ in A.all_stmts(m_.node):
+                        if isinstance(st_, ast.Assign) and any(isinstance(t_, ast.Subscript) and self_attr(t_.value, f) for t_ in st_.targets):
+                            v_ = st_.value
+                            if isinstance(v_, ast.Name):
+                                nm_ = v_.id
+                                for s2 in A.all_stmts(m_.node):
+                                    if isinstance(s2, ast.Assign) and any(isinstance(t2, ast.Name) and t2.id == nm_ for t2 in s2.targets):
+                                        v_ = s2.value
+                            if isinstance(v_, ast.Call) and A.call_attr(v_) == "_CacheEntry":
+                                return True
+                return False
+            res = [f for f in maps if holds_entries(f)]
+            self.aux_maps = [f for f in maps if f not in res]
+            maps = res
+        else:
+            self.aux_maps = []
         self.map = one(maps, "resident map (dict)")
         self.queue = one(queues, "recency queue (deque)")
         self.counter = one(counters, "usage counter (int 0)")
